@@ -82,7 +82,7 @@ func pathSim(a, b []string) bool {
 func checkError(obs gqlgen.Observed, fs []gqlgen.RefFailure, md gqlgen.Modes, qname string) (string, string) {
 	var sameCause []gqlgen.RefFailure
 	for _, f := range fs {
-		if f.Kind == obs.Class && f.Msg == obs.Text {
+		if f.Kind == obs.Class && gqlgen.FailText(f.Kind, f.Msg) == obs.Text {
 			sameCause = append(sameCause, f)
 		}
 	}
@@ -105,7 +105,7 @@ func checkError(obs gqlgen.Observed, fs []gqlgen.RefFailure, md gqlgen.Modes, qn
 	}
 	return "wrong-error-path", fmt.Sprintf("got path %v (%q); failures with this cause: %s", obs.Path, obs.Full, js(sameCause))
 pathok:
-	if obs.Class == "err" {
+	if obs.Class == "err" || obs.Class == "wrapsafe" {
 		segs := obs.Path
 		if qname != "" {
 			segs = append([]string{qname}, segs...)
@@ -122,7 +122,7 @@ func main() {
 	log.SetOutput(ioutil.Discard)
 	o := vh.ParseFlags()
 	run := vh.NewRun("C16", o)
-	run.Rule = "as C01 with 0-25% of resolver results failing (error / SafeError / wrapped SafeError / panic) under 2 execution-mode assignments x (scripted, FIFO, LIFO, goroutines) plus one subscribe over a fake JSONSocket; non-trivial = at least one needed resolver fails and the scripted run executed at least 3 work units, or at least two needed resolvers fail; distinct by query text + data + modes"
+	run.Rule = "as C01 with 0-25% of resolver results failing (error / SafeError / WrapAsSafeError / ordinary error wrapping a safe one with %w / panic) under 2 execution-mode assignments x (scripted, FIFO, LIFO, goroutines) plus one subscribe over a fake JSONSocket; non-trivial = at least one needed resolver fails and the scripted run executed at least 3 work units, or at least two needed resolvers fail; distinct by query text + data + modes"
 	r := vh.NewRng(o.Seed)
 
 	var cases []*gqlgen.Case
@@ -322,7 +322,7 @@ func checkWS(ws gqlgen.WSResult, fs []gqlgen.RefFailure, failing bool, fail func
 		if (f.Kind == "safe" || f.Kind == "wrapped") && msg == f.Msg {
 			ok = true
 		}
-		if (f.Kind == "err" || f.Kind == "panic") && msg == generic {
+		if (f.Kind == "err" || f.Kind == "panic" || f.Kind == "wrapsafe") && msg == generic {
 			ok = true
 		}
 	}
